@@ -22,15 +22,20 @@ import (
 type c12File struct {
 	Level int
 	Seq   int
+	Fat   bool // values padded by 20 KB: the file outweighs a plain one by more than the compaction ratio (10)
 }
 
 var c12Shapes = map[string][]c12File{
-	"L0x2":       {{0, 1}, {0, 2}},
-	"L0x3":       {{0, 1}, {0, 2}, {0, 3}},
-	"L0x2+L1":    {{1, 1}, {0, 1}, {0, 2}},
-	"L0x2+L1+L2": {{2, 1}, {1, 1}, {0, 1}, {0, 2}},
-	"L0+L1":      {{1, 1}, {0, 1}},
-	"L0x3+L1":    {{1, 1}, {0, 1}, {0, 2}, {0, 3}},
+	"L0x2":       {{Level: 0, Seq: 1}, {Level: 0, Seq: 2}},
+	"L0x3":       {{Level: 0, Seq: 1}, {Level: 0, Seq: 2}, {Level: 0, Seq: 3}},
+	"L0x2+L1":    {{Level: 1, Seq: 1}, {Level: 0, Seq: 1}, {Level: 0, Seq: 2}},
+	"L0x2+L1+L2": {{Level: 2, Seq: 1}, {Level: 1, Seq: 1}, {Level: 0, Seq: 1}, {Level: 0, Seq: 2}},
+	"L0+L1":      {{Level: 1, Seq: 1}, {Level: 0, Seq: 1}},
+	"L0x3+L1":    {{Level: 1, Seq: 1}, {Level: 0, Seq: 1}, {Level: 0, Seq: 2}, {Level: 0, Seq: 3}},
+	// size-ratio selections (a level outweighs the next one): level 0 -> 1 and level 1 -> 2
+	"fatL0+L1":    {{Level: 1, Seq: 1}, {Level: 0, Seq: 1, Fat: true}},
+	"fatL1+L2":    {{Level: 2, Seq: 1}, {Level: 1, Seq: 1, Fat: true}},
+	"L0+fatL1+L2": {{Level: 2, Seq: 1}, {Level: 1, Seq: 1, Fat: true}, {Level: 0, Seq: 1}},
 }
 
 // files are listed oldest first in a shape; cells[file][key]
@@ -77,7 +82,11 @@ func c12Write(dir string, a c12Arr) error {
 		for ki, c := range a.Cells[fi] {
 			switch c {
 			case 1:
-				w.AddWithSequence([]byte(c12Keys[ki]), []byte(fmt.Sprintf("%s.f%d", c12Keys[ki], fi)), uint64(fi*10+ki+1))
+				v := fmt.Sprintf("%s.f%d", c12Keys[ki], fi)
+				if f.Fat {
+					v += strings.Repeat("~", 20000)
+				}
+				w.AddWithSequence([]byte(c12Keys[ki]), []byte(v), uint64(fi*10+ki+1))
 			case 2:
 				w.AddWithSequence([]byte(c12Keys[ki]), nil, uint64(fi*10+ki+1))
 			}
@@ -240,6 +249,7 @@ func c12Eval(root string, a c12Arr, action string, tracker string) (problem stri
 			if listSST(dir) == prev {
 				break
 			}
+			c12Effective++
 		}
 	case strings.HasPrefix(action, "range:"):
 		b := strings.SplitN(action[6:], ",", 2)
@@ -281,6 +291,8 @@ func diffView(before, after map[string]string) string {
 	}
 	return ""
 }
+
+var c12Effective int // compaction cycles of "trigger" actions that changed the set of files (vacuity guard per shape)
 
 var c12Actions = []string{"trigger", "range:,", "range:k1,k3", "range:k2,k2", "range:k0,k1", "range:k15,k25"}
 
@@ -352,6 +364,7 @@ func c12FileUnit(unit string, env *fw.Env) *fw.Result {
 			res.Sample(map[string]any{"shape": shape, "tracker": tracker, "files": a.String()})
 		}
 	}
+	res.Count("effective_trigger_cycles:"+shape, c12Effective)
 	return res
 }
 
@@ -359,7 +372,7 @@ func init() {
 	fw.Register(&fw.Check{
 		ID:    "C12",
 		Level: "model_checking",
-		Rule: "file level: every assignment {absent,value,tombstone} of 3 keys x files for 6 file-set shapes (2-3 level-0 files, optional level-1/level-2 file), each non-empty file written with the real SSTable writer; the real coordinator runs TriggerCompaction until it selects nothing (view checked after every cycle) and CompactRange for 5 ranges, with the tombstone tracker knowing the deletes / not knowing them (restart) / retention expired. Oracle: newest-wins merged view of all files on disk (lower level newer, within level 0 higher file number newer) is unchanged; outputs sorted and duplicate-free; no two files of a level >=1 hold the same key. Engine level and crash points: see units eng/ and crash/. Non-trivial = arrangements in which every file of the shape is non-empty",
+		Rule: "file level: every assignment {absent,value,tombstone} of 3 keys x files for 9 file-set shapes (2-3 level-0 files, optional level-1/level-2 file; three shapes with a file padded to outweigh the next level by more than the compaction ratio, so that the size-ratio selection level 0 -> 1 and level 1 -> 2 runs), each non-empty file written with the real SSTable writer; the real coordinator runs TriggerCompaction until it selects nothing (view checked after every cycle) and CompactRange for 5 ranges, with the tombstone tracker knowing the deletes / not knowing them (restart) / retention expired. Oracle: newest-wins merged view of all files on disk (lower level newer, within level 0 higher file number newer) is unchanged; outputs sorted and duplicate-free; no two files of a level >=1 hold the same key. Engine level and crash points: see units eng/ and crash/. Non-trivial = arrangements in which every file of the shape is non-empty",
 		Assumptions: []string{"recency rule is the specification's (DESIGN §3 C12), not read off the implementation"},
 		Units: func(tier string) []string {
 			var us []string
@@ -371,6 +384,9 @@ func init() {
 				case 4:
 					nsh = 16
 				}
+				if strings.HasPrefix(sh, "fat") {
+					nsh = 4 // 20 KB values: slower per arrangement
+				}
 				trackers := []string{"tracked", "untracked"}
 				if tier == "thorough" || len(c12Shapes[sh]) <= 2 {
 					trackers = append(trackers, "expired")
@@ -380,6 +396,9 @@ func init() {
 					nsh, nk = 2, 2 // quick: 4-file shapes with 2 keys (3^8 arrangements), thorough: 3 keys (3^12)
 				} else if len(c12Shapes[sh]) == 4 {
 					nsh = 48
+				}
+				if tier != "thorough" && sh == "L0+fatL1+L2" {
+					nsh, nk = 2, 2 // quick: 2 keys (3^6 arrangements)
 				}
 				for _, tr := range trackers {
 					for s := 0; s < nsh; s++ {
